@@ -34,7 +34,8 @@ if os.environ.get("RV_C09_CASES"):        # development aid: run only a prefix o
         _t["min_nontrivial"] = max(5, _t["min_nontrivial"] * _n // _t["cases"])
         _t["cases"] = _n
 RULE = ("random discrete BNs (quick: 1-6 nodes, cards 1-5, 0-4 parents; thorough: 1-8 nodes, cards 1-6, 0-5 "
-        "parents) with parents in shuffled declared order and (mostly) pairwise distinct parent cardinalities; "
+        "parents; ~30% of the BNs and ~35% of the MNs mix one or two 10..13-state variables with 2..9-state ones) "
+        "with parents in shuffled declared order and (mostly) pairwise distinct parent cardinalities; "
         "variable / state names are identifiers: neutral, random (a few with a leading underscore), or containing a "
         "format keyword as prefix / suffix / infix, lower or upper case (variable, probability, network, table, "
         "default, node, potential, states, data, property, type, net, given, for, outcome, definition); one model in "
@@ -258,6 +259,11 @@ def bn_spec(rng, tier, big=False):
     else:
         n = rng.choice([1, 2, 2, 3, 3, 4, 4, 5, 5, 6] + ([7, 8] if thorough else []))
         n = min(n, max_n)
+        # "wide": one (sometimes two) variable with 10..13 states next to variables with 2..9 states, so that
+        # multi-digit cardinalities (whose string and numeric orders differ) are mixed with single-digit ones
+        wide = rng.random() < 0.3
+        if wide:
+            n = max(n, 2)
         names = unique_names(rng, n, name_style)
         while True:
             if rng.random() < 0.6:
@@ -268,6 +274,15 @@ def bn_spec(rng, tier, big=False):
                     cards = [c if c > 1 or rng.random() < 0.4 else rng.randint(2, max_card) for c in cards]
             else:
                 cards = [rng.choice([1, 2, 2, 2, 3, 3, 4, 5, max_card]) for _ in range(n)]
+            if wide:
+                w = rng.sample(range(n), 2 if (n >= 3 and rng.random() < 0.25) else 1)
+                for i in w:
+                    cards[i] = rng.randint(10, 13)
+                rest = [i for i in range(n) if i not in w]
+                if not any(2 <= cards[i] <= 9 for i in rest):
+                    cards[rng.choice(rest)] = rng.randint(2, 9)
+                elif rng.random() < 0.3:
+                    cards[rng.choice(rest)] = rng.randint(6, 9)
             if math.prod(cards) <= max_joint:
                 break
         order = list(range(n))
@@ -312,8 +327,18 @@ def bn_spec(rng, tier, big=False):
 
 def mn_spec(rng, tier):
     thorough = tier == "thorough"
-    spec = gen.rand_mn_spec(rng, n_range=(2, 7 if thorough else 6), cards=(2, 2, 3, 3, 4, 5) if thorough else (2, 2, 3, 4),
-                            kind=rng.choice(["id", "str"]), max_joint=8000 if thorough else 2048)
+    if rng.random() < 0.35:
+        # "wide": a variable with 10..13 states mixed with 2..9-state ones (string vs numeric order of cardinalities)
+        for _ in range(40):
+            spec = gen.rand_mn_spec(rng, n_range=(2, 5), cards=(2, 2, 3, 3, 4, 7, 9, 10, 11, 12, 13),
+                                    kind=rng.choice(["id", "str"]), max_joint=8000 if thorough else 4096)
+            cs = list(spec["card"].values())
+            if any(c >= 10 for c in cs) and any(2 <= c <= 9 for c in cs):
+                break
+    else:
+        spec = gen.rand_mn_spec(rng, n_range=(2, 7 if thorough else 6),
+                                cards=(2, 2, 3, 3, 4, 5) if thorough else (2, 2, 3, 4),
+                                kind=rng.choice(["id", "str"]), max_joint=8000 if thorough else 2048)
     # isolated nodes carrying a unary factor (a valid Markov network: every variable has a factor)
     if rng.random() < 0.25:
         for t in range(rng.randint(1, 2)):
@@ -980,6 +1005,8 @@ def run_case(spec, ctx):
               "elidable-table" if bn_has_elidable_table(bn) else None,
               "single-value-table" if bn_single_value_nodes(bn) else None,
               "card1" if 1 in bn["card"].values() else None,
+              "card>=10 mixed with 2..9" if (any(c >= 10 for c in bn["card"].values()) and
+                                             any(2 <= c <= 9 for c in bn["card"].values())) else None,
               "exponent-entries" if bn_has_exponent(bn) else None,
               "underscore-lead-name" if any(v.startswith("_") for v in bn_names(bn)) else None,
               "keyword-in-name" if any(k in x.lower() for x in bn_names(bn) for k in KEYWORDS if len(k) > 3) else None,
@@ -1036,6 +1063,8 @@ def run_mn(spec, ctx):
         return
     ctx.nontrivial = len(mn["edges"]) >= 1
     for f in ("mn", f"mn-values:{mn.get('val_style')}", "mn-isolated-node" if mn_isolated(mn) else None,
+              "card>=10 mixed with 2..9" if (any(c >= 10 for c in mn["card"].values()) and
+                                             any(2 <= c <= 9 for c in mn["card"].values())) else None,
               "exponent-entries" if mn_has_exponent(mn) else None):
         if f:
             ctx.feature(f)
